@@ -107,6 +107,18 @@ func randomDraws(c c09Case) int {
 	return n
 }
 
+// c09RefusedLoads: inputs no loader accepts, each leaving the lexer or parser at another place.
+var c09RefusedLoads = []string{
+	"title: A\n---\nx\n===\n    title: B\n---\ny\n===\n",
+	"title: A\n---\n-> o\n    x\n        y",
+	"title: A\n---\n<<if true>>\n    x\n",
+	"title: A\n---\n-> o\n \t x\n===\n",
+	"title: A\n---\nx {1 +\n===\n",
+	"title: A\n---\n-> o\n    -> p\n        z\n===\n#tag\n",
+	"",
+	"title: A\n---\nx\n===\n---x{1",
+}
+
 func runC09(c c09Case) Verdict {
 	m := newInterp(c.Script, c.Vars, c.Choices, flowMaxEv)
 	m.stopAtErr = true
@@ -129,6 +141,18 @@ func runC09(c c09Case) Verdict {
 		mrand.Int63()
 	}
 	mrand.Seed(int64(len(c.Seed)))
+	// ... and loads that are refused (whatever they leave behind in the process is nobody's business afterwards)
+	for i, broken := range c09RefusedLoads {
+		if (i+len(c.Seed))%2 == 0 {
+			func() {
+				defer func() { _ = recover() }()
+				_, _ = ysgo.NewDialogueRunner(nil, c.Seed, strings.NewReader(broken))
+			}()
+			if _, err := newHost(renderCanonical(c.Script), c.Seed, c.Vars); err != nil {
+				return failf("the script loaded at first; after a refused load of %q in the same process it is refused: %v", broken, err)
+			}
+		}
+	}
 	half, _ := newHost(renderCanonical(c.Script), c.Seed, c.Vars)
 	half.drive(c.Choices, nil, 3, false)
 	second, err := c09Drive(c, c.Seed)
